@@ -241,7 +241,7 @@ fn reserves(s: &Snap) -> [u128; 2] { [s.bal[0].saturating_sub(s.fee[0]), s.bal[1
 
 fn exec(w: &mut PairWorld, op: &Op) -> Result<(), String> {
     match op {
-        Op::Provide { u, d } => guarded(|| w.provide(USERS4[*u], d[0], d[1], None, None)).map(|_| ()),
+        Op::Provide { u, d } => guarded(|| w.provide_ext(USERS4[*u], d[0], d[1], None, None, (d[0] ^ d[1]) & 1 == 1, None)).map(|_| ()),
         Op::Withdraw { u, amount } => guarded(|| w.withdraw(USERS4[*u], *amount)).map(|_| ()),
         Op::Swap { u, i, x, ms } => guarded(|| w.swap(USERS4[*u], *i, *x, None, ms.map(|m| Decimal::new(m.into())), None)).map(|_| ()),
         Op::Collect => guarded(|| w.collect("bob")).map(|_| ()),
